@@ -2,12 +2,11 @@
 import time
 from lib.common import run_tasks, finish
 
-NATIVES = ['reduce', 'accumulate_brent_kung', 'accumulate_sklansky', 'accumulate_default', 'accumulate_bad_method']
-
 
 def run(tier, seed):
     t0 = time.time()
-    tasks = [('lib.native', 'run_natives', ('contracts.mpctools', [n], tier)) for n in NATIVES]
+    import contracts.mpctools as C
+    tasks = [('lib.native', 'run_natives', ('contracts.mpctools', [n], tier)) for n in reversed(C.native_names(tier))]
     obs = run_tasks(tasks)
     return finish('C32', tier, seed, obs, 'other', t0,
                   explanation='bounded executable contracts on the real mpctools.reduce/accumulate: the functions are run with f = concatenation '
